@@ -19,6 +19,7 @@ from mc.runner import Result
 
 PROPERTY = "C04"
 LEVEL = "model_checking"
+TECHNIQUE = "exhaustive enumeration of member sequences x block distributions x combine variants through the real chunk/combine/finalize pipeline"
 ENGINE = "E2"
 RULE = (
     "state = (aggregation, dtype, distribution of the target group's m members over k ordered blocks with empty parts, combine "
